@@ -174,6 +174,7 @@ import io  # noqa: E402
 from chartparse.chart import Chart  # noqa: E402
 
 _HEAD = ["[Song]", "{", '  Name = "n"', "  Resolution = 192", "}"]
+_HEAD_SLOW = ["[Song]", "{", "  Resolution = 1", "}"]
 _SYNCS = [["  0 = TS 4", "  0 = B 120000"], ["  0 = TS 4", "  0 = TS 3 3", "  0 = B 120000", "  5 = B 1", "  9 = B 999999999", "  0 = A 0", "  7 = A 12345678"]]
 _EVS = [[], ['  0 = E "section a"'], ['  0 = E "section a"', '  1 = E "section b"', '  2 = E "lyric x"', '  2 = E "lyric y"', '  3 = E "t"', '  4 = E "u"', "  junk"]]
 _TRKS = [[], [("ExpertSingle", [])], [("ExpertSingle", ["  0 = N 7 10", "  0 = N 6 0"]),
@@ -182,10 +183,21 @@ _TRKS = [[], [("ExpertSingle", [])], [("ExpertSingle", ["  0 = N 7 10", "  0 = N
 
 def render_chart(si: int, ei: int, ti: int) -> bool:
     """
-    pre: 0 <= si < len(_SYNCS) and 0 <= ei < len(_EVS) and 0 <= ti < len(_TRKS)
+    pre: 0 <= si <= len(_SYNCS) and 0 <= ei < len(_EVS) and 0 <= ti < len(_TRKS)
     post: _
     """
-    lines = list(_HEAD) + ["[SyncTrack]", "{"] + _SYNCS[si] + ["}", "[Events]", "{"] + _EVS[ei] + ["}"]
+    si, ei, ti = H.pick([0, 1, 2], si), H.pick([0, 1, 2], ei), H.pick([0, 1, 2], ti)
+    with H.untraced():      # concrete on every path; CrossHair's datetime model is not the interpreter's
+        return done(_render_chart(si, ei, ti))
+
+
+def _render_chart(si, ei, ti):
+    if si == 2:
+        # slowest in-bounds tempo map: resolution 1, 0.001 BPM, events at an 8-digit tick (6e12 s)
+        lines = list(_HEAD_SLOW) + ["[SyncTrack]", "{", "  0 = TS 4", "  0 = B 1", "  99999990 = TS 3", "}", "[Events]", "{"] + \
+            [ln.replace("  0 = E", "  99999999 = E") for ln in _EVS[ei]] + ["}"]
+    else:
+        lines = list(_HEAD) + ["[SyncTrack]", "{"] + _SYNCS[si] + ["}", "[Events]", "{"] + _EVS[ei] + ["}"]
     for nm, body in _TRKS[ti]:
         lines += ["[" + nm + "]", "{"] + body + ["}"]
     with H.patched((T, "logger", H.CountingLogger())):
@@ -201,4 +213,4 @@ def render_chart(si: int, ei: int, ti: int) -> bool:
             evs += list(t.note_events) + list(t.star_power_events) + list(t.track_events)
     for e in evs:
         out += [str(e), repr(e)]
-    return done(all(isinstance(x, str) and len(x) > 0 for x in out))
+    return all(isinstance(x, str) and len(x) > 0 for x in out)
